@@ -198,6 +198,14 @@ pub struct Ctx<'a> {
     pub fault_pending: bool,
 }
 
+thread_local! {
+    static LAST_SIZE: std::cell::Cell<usize> = const { std::cell::Cell::new(0) };
+}
+/// model result size (new pairs, new seq, new signature) computed by the last `expect_*` call
+pub fn last_model_size() -> usize {
+    LAST_SIZE.with(|c| c.get())
+}
+
 fn finish(cx: &Ctx, mut pairs: Pairs, new_seq: Option<u64>, pre_seq: u64, mut c: Causes, rets: Vec<Ret>) -> Expect {
     let scheme = cx.fam.scheme();
     pairs.insert(scheme.key_name().to_vec(), rlp::encode_str(cx.signer_pk));
@@ -236,6 +244,7 @@ fn finish(cx: &Ctx, mut pairs: Pairs, new_seq: Option<u64>, pre_seq: u64, mut c:
         }
     }
     let size = record_size(cx.fam, seq, &pairs);
+    LAST_SIZE.with(|c| c.set(size));
     if size > 300 {
         c.err(EK::Size);
     } else if cx.fam == FamId::Var && size + 6 > 300 {
